@@ -23,10 +23,10 @@ THEOREMS = ["C13_isolation", "C13_default_unaltered", "C13_shared_cache_refuted"
 
 BOOL_OPTS = ("omit_none", "omit_default", "serialize_by_alias", "namedtuple_as_dict")
 FIVE = ("serialize_by_alias", "namedtuple_as_dict", "omit_none", "omit_default", "no_copy_collections")
-CID = {"P": 0, "C": 1, "G": 2, "S": 3, "Inner": 4}
+CID = {"P": 0, "C": 1, "G": 2, "S": 3, "Inner": 4, "Plain": 5}
 HIER = "[(1, [0]); (2, [1; 0]); (3, [0])]"
 TSETS = {frozenset(["t_P"]): "P", frozenset(["t_P", "t_C"]): "C", frozenset(["t_P", "t_C", "t_G"]): "G",
-         frozenset(["t_P", "t_S"]): "S", frozenset(["t_Inner"]): "Inner"}
+         frozenset(["t_P", "t_S"]): "S", frozenset(["t_Inner"]): "Inner", frozenset(["t_Plain"]): "Plain"}
 
 
 # ---------------------------------------------------------------------------
@@ -221,11 +221,14 @@ def gen_spec(r) -> dict:
         out = [[f"{prefix}{next(cnt)}", kd] for kd in r.sample(KINDS, r.randint(lo, hi))]
         if r.random() < inner_p:
             out.append([f"{prefix}in", "inner"])
+        if r.random() < (inner_p * 0.7 if inner_p else 0.15):
+            out.append([f"{prefix}pl", "plain"])      # a plain (non-mixin) dataclass: compiled on demand
         return out
 
     mixin = "DataClassMessagePackMixin" if r.random() < 0.35 else None
     classes = {
         "Inner": {"base": None, "mixin": mixin, "fields": [["n", "opt"], ["w", "int"]], "config": cfg()},
+        "Plain": {"base": None, "plain_dataclass": True, "fields": [["q", "opt"]], "config": cfg()},
         "P": {"base": None, "mixin": mixin, "fields": flds("p", 3, 5, 0.0), "config": cfg()},
         "C": {"base": "P", "fields": flds("c", 1, 3, 0.5), "config": cfg() if r.random() < 0.25 else None},
         "G": {"base": "C", "fields": flds("g", 1, 2, 0.0), "config": cfg() if r.random() < 0.25 else None},
@@ -233,8 +236,19 @@ def gen_spec(r) -> dict:
     }
     if any(kd == "inner" for f, kd in classes["C"]["fields"]):
         pass
-    return {"dialects": dialects, "classes": classes, "order": ["Inner", "P", "C", "G", "S"], "flags": flags,
+    return {"dialects": dialects, "classes": classes, "order": ["Inner", "Plain", "P", "C", "G", "S"], "flags": flags, "lazy": r.random() < 0.3,
             "base_dialect": base, "mixin": mixin, "cfg_int": r.random() < 0.4}
+
+
+def uniform_flag_options(spec: dict) -> bool:
+    """A keyword flag is forwarded to nested dataclasses and then overrides THEIR Config value, so 'a flag only adds
+    a keyword' is claimed only for families whose classes agree on the Config value of the flag-steered options."""
+    for flag, opt in (("omit_none", "omit_none"), ("by_alias", "serialize_by_alias")):
+        if flag in spec.get("flags", []):
+            vals = {json.dumps(c["config"].get(opt)) for c in spec["classes"].values() if c.get("config") is not None}
+            if len(vals) > 1:
+                return False
+    return True
 
 
 def covers(spec: dict, di) -> bool:
@@ -278,13 +292,14 @@ def gen_vals(r, fam: F.Family, cname: str, depth: int = 0) -> dict:
                    "alias": lambda: r.choice([7, 8]), "nt": lambda: r.choice([[1, 2], [3, 4]]),
                    "list": lambda: r.choice([[], [1, 2], [5]]), "str": lambda: r.choice(["s", "abc"]),
                    "optstr": lambda: r.choice([None, "x"]), "bytes": lambda: r.choice(["6162", "00ff10", ""]),
-                   "inner": lambda: {"n": r.choice([None, 4]), "w": r.choice([5, 9])}}[kind]()
+                   "inner": lambda: {"n": r.choice([None, 4]), "w": r.choice([5, 9])},
+                   "plain": lambda: {"q": r.choice([None, 2])}}[kind]()
     return vals
 
 
 def gen_history(r, spec: dict, n_ops: int) -> list:
     k = len(spec["dialects"]) - (1 if spec.get("base_dialect") is not None else 0)   # the classes' own default dialect is not passed to calls
-    ops = [["define", "Inner"], ["define", "P"]]
+    ops = [["define", "Inner"], ["define", "Plain"], ["define", "P"]]
     defined = ["P"]
     pending = ["C", "S"]
     hot = [r.randint(1, k)]
@@ -303,6 +318,10 @@ def gen_history(r, spec: dict, n_ops: int) -> list:
         dirs = ["to", "to", "from"] + (["mto", "mto", "mfrom"] if spec.get("mixin") else [])
         ops.append(["call", c, r.choice(dirs), d, None])   # vals filled at run time
     return ops
+
+
+def has_kind(fam: F.Family, cname: str, kind: str) -> bool:
+    return any(k == kind for _f, k in fam.all_fields(cname))
 
 
 def has_inner(fam: F.Family, cname: str):
@@ -449,7 +468,13 @@ class HistoryRun:
         for idx, op in enumerate(self.ops):
             if op[0] == "define":
                 fam.define(op[1])
+                if op[1] == "Plain":
+                    continue          # a plain dataclass: nothing is compiled until a class that uses it is
                 for d in self.dirs:
+                    if has_kind(fam, op[1], "plain") and not self.spec.get("lazy"):
+                        # eager class creation compiles the plain nested class on demand (dialect None)
+                        self.model[d][0].append(["define", CID["Plain"]])
+                        self.model[d][1].append(None)
                     self.model[d][0].append(["define", CID[op[1]]])
                     self.model[d][1].append(None)
                 continue
@@ -459,6 +484,11 @@ class HistoryRun:
                 op[4] = vals
             tw = self.twin(di)
             mops, mouts = self.model[direction]
+            if self.spec.get("lazy") and has_kind(fam, c, "plain"):
+                # lazy_compilation: the first call in this (format, direction) compiles the class, and with it
+                # the plain nested class (default method, own cache) -- repeated definitions are idempotent
+                mops.append(["define", CID["Plain"]])
+                mouts.append(None)
             mp = direction in ("mto", "mfrom")
             if direction in ("to", "mto"):
                 got, gid, raw = F.call_to_dict(fam, c, vals, di, mp)
@@ -471,7 +501,7 @@ class HistoryRun:
                 ok = (got == exp and gid == eid)
                 observed, expected = [got, gid], [exp, eid]
                 flags = self.spec.get("flags", ["dialect"])
-                if ok and di is None and len(flags) > 1 and self.mismatch is None:
+                if ok and di is None and len(flags) > 1 and self.mismatch is None and uniform_flag_options(self.spec):
                     # a keyword flag only adds a keyword: without that keyword the result is the one of the same
                     # family without the flag options (whatever supplies the option: Config, Config.dialect, format)
                     nf = self.unflagged()
@@ -488,6 +518,9 @@ class HistoryRun:
                     # the one the family itself writes (one more to_dict call in the history)
                     _, _, doc = F.call_to_dict(fam, c, vals, di, mp)
                     tops, touts = self.model["mto" if mp else "to"]
+                    if self.spec.get("lazy") and has_kind(fam, c, "plain"):
+                        tops.append(["define", CID["Plain"]])
+                        touts.append(None)
                     tops.append(["call", CID[c], di])
                     touts.append(decode_to(doc))
                     for ncls, tag in nested_to(doc):
@@ -507,6 +540,12 @@ class HistoryRun:
             self.stats.append((c, direction, di))
             if not covers(self.spec, di):
                 self.uncovered += 1
+                g0 = observed[0] if direction in ("to", "mto") else observed
+                if isinstance(g0, tuple) and len(g0) == 2 and g0[0] == "exc" and self.mismatch is None:
+                    # no twin to compare with (layered dialects), but a call on a document of its own dialect never raises
+                    self.mismatch = {"index": idx, "op": [c, direction, di, vals], "observed": observed,
+                                     "expected": "a result (the family's own document / instance), not an exception"}
+                    break
                 continue
             if not ok and self.mismatch is None:
                 self.mismatch = {"index": idx, "op": [c, direction, di, vals], "observed": observed, "expected": expected}
@@ -516,10 +555,10 @@ class HistoryRun:
     def cache_case(self, direction) -> str:
         mops, mouts = self.model[direction]
         keys = []
-        for name in ("P", "C", "G", "S", "Inner"):
+        for name in ("P", "C", "G", "S", "Inner", "Plain"):
             ks = F.own_cache_keys(self.fam, name, direction)
             keys.append("None" if ks is None else "Some [" + "; ".join(map(str, ks)) + "]")
-        return (f"({HIER}, [0; 1; 2; 3; 4], [" + "; ".join(coq_op(o) for o in mops) + "], (["
+        return (f"({HIER}, [0; 1; 2; 3; 4; 5], [" + "; ".join(coq_op(o) for o in mops) + "], (["
                 + "; ".join(coq_tag(t, self.spec.get("base_dialect")) for t in mouts) + "], [" + "; ".join(keys) + "]))")
 
 
@@ -529,6 +568,12 @@ def classify_history_failure(hr: HistoryRun, mm: dict) -> dict:
     if mm.get("kind"):
         return {"kind": mm["kind"], "direction": direction}
     sig = {"kind": "call-dialect-differs-from-twin", "direction": direction}
+    obs = mm["observed"][0] if direction in ("to", "mto") else mm["observed"]
+    if (hr.spec.get("lazy") and hr.spec.get("mixin") and direction in ("mto", "mfrom") and di is not None
+            and any(k in ("selfopt", "selflist") for _f, k in hr.fam.all_fields(c))
+            and list(obs) == ["exc", "AttributeError" if direction == "mto" else "InvalidFieldValue"]
+            and not any(o[0] == "call" and o[1] == c and o[2] == direction and o[3] is None for o in hr.ops[:mm["index"]])):
+        return {"kind": "lazy-format-self-first-dialect-call", "direction": direction}
     flags = hr.spec.get("flags", ["dialect"])
     if direction in ("to", "mto") and di is not None and ("omit_none" in flags or "by_alias" in flags):
         dspec = hr.spec["dialects"][str(di)]
@@ -567,6 +612,7 @@ def history_part(ctx: vlib.Ctx, n_hist=None, tag=""):
                 ctx.hist("history_class", c)
             ctx.hist("family_flags", "+".join(spec["flags"]))
             ctx.hist("family_mixin", spec.get("mixin") or "DataClassDictMixin")
+            ctx.hist("family_compilation", "lazy" if spec.get("lazy") else "eager")
             ctx.hist("family_default_dialect", "own Config.dialect" if spec.get("base_dialect") else "none")
             if hr.uncovered:
                 ctx.hist("history_calls", "skipped:call-dialect-does-not-cover-Config.dialect", hr.uncovered)
@@ -810,6 +856,24 @@ def replay(rep: dict) -> int:
             hr.close()
         if mm is not None:
             print("operation", mm["op"], "\n observed", mm["observed"], "\n expected", mm["expected"])
+            print("REPRODUCED")
+            return 1
+        print("not reproduced")
+        return 0
+    if entry == "source":
+        ns: dict = {"__name__": "c13_replay_src"}
+        mod = types.ModuleType("c13_replay_src")
+        sys.modules["c13_replay_src"] = mod
+        try:
+            exec(rep["source"], mod.__dict__)
+            try:
+                got = repr(eval(rep["call"], mod.__dict__))
+            except Exception as e:  # noqa: BLE001
+                got = f"{type(e).__name__}: {e}"
+        finally:
+            sys.modules.pop("c13_replay_src", None)
+        print("observed", got, "expected", rep["expected"])
+        if got != rep["expected"]:
             print("REPRODUCED")
             return 1
         print("not reproduced")
